@@ -6,7 +6,31 @@
 //     isValid(BLOCK_CAN_BE_APPLIED) or won a setState/compare is remembered per
 //     instance; `on X react` tries to re-activate each of them
 //   * `on X valid`   blocks currently reporting the fully-valid level
+//   * `on X xvtb w e vparent bparent lastKnownBtc`  like the registry op `vtb`, but the containing VBK
+//     block is assembled by hand, so the MockMiner does not apply the VTB to its own tree first: the VTB
+//     passes every stateless check but may be contextually invalid (expired endorsement, endorsed block on
+//     another fork, BTC block of proof connecting to a BTC block that is referenced only by LATER VBK blocks)
 // Oracle failures are printed as "!<id> <text>".
+#include <cstring>
+#include <algorithm>
+#include <map>
+#include <memory>
+#include <set>
+#include <sstream>
+#include <string>
+#include <vector>
+#include <unordered_map>
+#include <unordered_set>
+#include <functional>
+#include <future>
+#include <mutex>
+#include <thread>
+#include <iostream>
+// the MockMiner is test equipment: its private block miner / merkle-tree store are needed to build a VBK
+// block carrying a pop tx WITHOUT the miner's own stateful validation
+#define private public
+#include <veriblock/pop/mock_miner.hpp>
+#undef private
 #include "world.hpp"
 #if defined(VERIBLOCK_ALT_INTEGRATION_CPP_VERIF) && defined(__has_include)
 #if __has_include(<veriblock/pop/verif_hooks.hpp>)
@@ -82,13 +106,37 @@ Snap snapshot(const vw::Registry& reg, const AltBlockTree& tree) {
 std::vector<std::string> checkUnchanged(const vw::Registry& reg, const Snap& b, const Snap& a, const std::string& target) {
   std::vector<std::string> bad;
   if (b.other != a.other) {
+    // KNOWN DEFECT of the library (reported, witness corpus/C02/pidx_duplicate_vtb.json), carved out narrowly: the VBK
+    // payload index maps a VTB id to a SET of containing blocks while a block holds a LIST of ids. When the same VTB is
+    // carried by the active ALT chain and by the candidate, rolling the candidate back erases the only set entry
+    // although the VTB is still applied. Tolerated: a `VBK pidx w -> v...` line that DISAPPEARS while w is carried by
+    // at least two ALT blocks and every such v still lists w among its VTBs. Extra (stale) lines are never tolerated.
+    auto knownPidxLoss = [&](const std::string& l) {
+      auto t = vh::split(l);
+      if (t.size() < 5 || t[0] != "VBK" || t[1] != "pidx" || t[3] != "->") return false;
+      bool dup = false;
+      for (auto& o : b.other) {
+        auto u = vh::split(o);
+        if (u.size() >= 6 && u[0] == "ALT" && u[1] == "pidx" && u[2] == t[2]) dup = true;
+      }
+      if (!dup) return false;
+      for (size_t i = 4; i < t.size(); i++) {
+        auto it = a.sp.find("VBK " + t[i]);
+        if (it == a.sp.end()) return false;
+        const std::string& rest = it->second.second;
+        if (rest.find("[" + t[2] + ",") == std::string::npos && rest.find("," + t[2] + ",") == std::string::npos) return false;
+      }
+      return true;
+    };
     std::string d;
-    for (auto& l : b.other) if (!std::binary_search(a.other.begin(), a.other.end(), l)) { d += " -[" + l + "]"; if (d.size() > 600) break; }
+    for (auto& l : b.other) if (!std::binary_search(a.other.begin(), a.other.end(), l) && !knownPidxLoss(l)) { d += " -[" + l + "]"; if (d.size() > 600) break; }
     for (auto& l : a.other) if (!std::binary_search(b.other.begin(), b.other.end(), l)) { d += " +[" + l + "]"; if (d.size() > 1200) break; }
-    bad.push_back("views differ:" + d);
+    if (!d.empty()) bad.push_back("views differ:" + d);
   }
-  // SP blocks: identical, except that the validity LEVEL of a VBK/BTC block may have been raised (an SP fork that was
-  // activated while the target branch was applied keeps its "can be applied" level; seen only with competing SP forks)
+  // SP blocks: identical, except for the cached validity LEVEL of a VBK/BTC block (failure flags, ACTIVE flag and
+  // every other field are compared exactly): an SP fork that was activated while the target branch was applied
+  // keeps its "can be applied" level, and an SP block of the active ALT chain whose last reference went away while
+  // the ALT chain was rolled back is re-created at the "connected" level. Seen only with competing SP forks.
   if (b.sp.size() != a.sp.size()) bad.push_back("SP block set changed");
   for (auto& kv : b.sp) {
     auto ia = a.sp.find(kv.first);
@@ -96,8 +144,8 @@ std::vector<std::string> checkUnchanged(const vw::Registry& reg, const Snap& b, 
     if (ia->second.second != kv.second.second) bad.push_back("SP block " + kv.first + " changed:" + kv.second.second + " ->" + ia->second.second);
     uint32_t sb = kv.second.first, sa = ia->second.first;
     if (sb == sa) continue;
-    bool raised = ((sb & ~LEVEL_MASK) == (sa & ~LEVEL_MASK)) && (sa & LEVEL_MASK) > (sb & LEVEL_MASK);
-    if (!raised) bad.push_back("status of SP block " + kv.first + " " + std::to_string(sb) + " -> " + std::to_string(sa));
+    bool levelOnly = ((sb & ~LEVEL_MASK) == (sa & ~LEVEL_MASK)) && (sa & LEVEL_MASK) != 0 && (sb & LEVEL_MASK) != 0;
+    if (!levelOnly) bad.push_back("status of SP block " + kv.first + " " + std::to_string(sb) + " -> " + std::to_string(sa));
   }
   std::vector<std::string> path = reg.alt.count(target) ? reg.ancestry(target) : std::vector<std::string>{};
   std::string X;
@@ -292,8 +340,36 @@ struct SmSession : public vw::Session {
   // failures of the last react, for the "!" line
   std::string reactFail;
 
+  std::string xvtb(const std::vector<std::string>& t) {
+    if (t.size() < 6) return "SKIP args";
+    auto& R = *reg;
+    if (!R.vbk.count(t[2]) || !R.vbk.count(t[3]) || !R.btc.count(t[4]) || !R.btc.count(t[5]) || R.vtb.count(t[1])) return "SKIP";
+    const auto& eb = R.vbk.at(t[2]);
+    auto btctx = R.miner.createBtcTxEndorsingVbkBlock(eb);
+    R.tick();
+    auto* bb = R.miner.mineBtcBlocks(1, *R.bidx(t[4]), {btctx});
+    if (bb == nullptr) return "SKIP miner-rejected";
+    auto ptx = R.miner.createVbkPopTxEndorsingVbkBlock(bb->getHeader(), btctx, eb, R.btc.at(t[5]).getHash());
+    std::vector<VbkPopTx> txs{ptx};
+    VbkMerkleTree merkleTree({}, hashAll(txs));
+    const auto& merkleRoot = merkleTree.getMerkleRoot().template trim<VBK_MERKLE_ROOT_HASH_SIZE>();
+    VbkBlock block = R.miner.vbk_miner_.createNextBlock(*R.vidx(t[3]), merkleRoot);
+    ValidationState st;
+    if (!R.miner.vbk_tree_.acceptBlockHeader(block, st)) return "SKIP header " + st.GetPath();
+    auto* bi = R.miner.vbk_tree_.getBlockIndex(block.getHash());
+    bi->addRef(0);
+    R.miner.vbk_merkle_trees_.insert({block.getHash(), merkleTree});
+    auto v = R.miner.createVTB(block, ptx);
+    R.vtb[t[1]] = v;
+    auto wid = v.getId();
+    R.names["id:" + vh::hex(wid.data(), wid.size())] = t[1];
+    R.sweep();
+    return R.regVbk(block) + " " + R.regBtc(bb->getHeader());
+  }
+
   std::string extra(vw::Instance& I, const std::vector<std::string>& t) override {
     if (t[0] == "sm") return smDump(I);
+    if (t[0] == "xvtb") return xvtb(t);
     if (t[0] == "valid") {
       std::vector<std::string> v;
       for (auto* w : I.tree.getBlocks())
